@@ -199,6 +199,63 @@ def harness(ctx, case):
     return out
 
 
+def harness_shared_lib(ctx, case):
+    """order independence with a shared import: two test files import the same library, whose own assertion has a symbolic outcome;
+    the verdict of the second file in `ucg test t0 t1` must be the verdict it gets from `ucg test t1` alone (relational, no
+    reference verdict needed)."""
+    prog = ctx.prog
+    ucgrun.install_parse_override(prog)
+    c = ctx.bv('lib_c', 64)
+    files = {'lib.ucg': 'assert {ok = %s > 0, desc = "lib"};\nlet v = 1;\n' % SP.ph(1),
+             't0_test.ucg': 'let l = import "lib.ucg";\nassert {ok = l.v == 1, desc = "f0a0"};\n',
+             't1_test.ucg': 'let l = import "./lib.ucg";\nassert {ok = l.v == 1, desc = "f1a0"};\n'}
+    for n, t in files.items():
+        ctx.fs['/cwd/' + n] = t
+    ctx.parse_subst = {'ints': {1: c}}
+    out = {'reached': True, 'asserts': 1, 'violations': []}
+
+    def run(names):
+        ctx.events = []
+        env = ucgrun.make_env(ctx)
+        matches = Agg('ArgMatches', None, (MapV('HashMap').insert('INPUT', VecV(list(names))), MapV('HashMap')))
+        exited = None
+        try:
+            ctx.call('test_command', [matches, VecV([]), True, env])
+        except interp.HarnessStop as h:
+            exited = h.payload
+        stdout = ''.join(text_of(e[1]) for e in ctx.events if e[0] == 'stdout')
+        return stdout, exited
+    both, e_both = run(case['order'])
+    last = case['order'][-1]
+    alone, e_alone = run([last])
+    v_both = ('File %s Pass' % last) in both
+    v_alone = ('File %s Pass' % last) in alone
+    if v_both != v_alone:
+        m = ctx.model()
+        progs = {n: SP.render_text(t, m, ctx, {1: c}) for n, t in files.items()}
+        out['violations'].append({'key': 'C13:verdict-depends-on-earlier-files:shared-import', 'what': '%s is reported %s after %s but %s when tested alone — files: %r' % (last, 'Pass' if v_both else 'Fail', case['order'][0], 'Pass' if v_alone else 'Fail', progs),
+                                  'case': {'kind': 'cli-test-shared', 'files': progs, 'order': case['order']}, 'expected': []})
+    else:
+        out['sample'] = {'order': case['order'], 'verdict_of_last': 'Pass' if v_both else 'Fail', 'same_alone': True}
+    return out
+
+
+def judge_shared(fw, v):
+    import tempfile
+    c = v['case']
+    last = c['order'][-1]
+    res = []
+    for args in (c['order'], [last]):
+        with tempfile.TemporaryDirectory(prefix='ucg-verif-c13-') as d:
+            for n, t in c['files'].items():
+                open(os.path.join(d, n), 'w').write(t)
+            r = fw.native().cli(['test'] + list(args), d)
+        res.append(('File %s Pass' % last) in r['stdout'])
+        fw.replayed += 1
+    v['native'] = {'verdict_in_batch': res[0], 'verdict_alone': res[1]}
+    return res[0] != res[1]
+
+
 def judge_cli(fw, v):
     """replay through the real binary: `ucg test f1 f2 ...` in a temp dir. For directory trees the order in which the real file
     system lists a directory depends on the entry names, so the tree is replayed under several consistent renamings of its
@@ -243,10 +300,11 @@ def judge_cli(fw, v):
 def run(fw):
     cs = cases(fw.tier)
     fw.bounds.update({'files_per_invocation': '1..3', 'assertions_per_file': '0..3', 'assertion_forms': list(FORMS), 'outcomes': 'symbolic (i64 operand > 0)',
-                      'directory_trees': '5 layouts tested with -r (files at depth 0..2, 2..3 entries per directory, listing order symbolic)', 'outside': 'stdout layout beyond verdict/summary/log lines, import of other files'})
+                      'directory_trees': '5 layouts tested with -r (files at depth 0..2, 2..3 entries per directory, listing order symbolic)', 'shared_import': 'two test files importing one library whose assertion has a symbolic outcome, both orders, compared with the last file tested alone', 'outside': 'stdout layout beyond verdict/summary/log lines'})
     fw.explore('test-command', harness, cs, fuel=200_000_000)
+    fw.explore('shared-import', harness_shared_lib, [{'order': ['t0_test.ucg', 't1_test.ucg']}, {'order': ['t1_test.ucg', 't0_test.ucg']}], fuel=200_000_000)
     for v in fw.violations:
-        v['reproduced'] = judge_cli(fw, v)
+        v['reproduced'] = judge_shared(fw, v) if v['case'].get('kind') == 'cli-test-shared' else judge_cli(fw, v)
     fw.assumptions += ['file system, stdout and process::exit are recording stubs; clap::ArgMatches is a harness-built value (values_of/is_present builtins)',
                        'std/alloc builtins (listed)']
     return fw.finish(technique='symbolic execution of the binary crate\'s MIR (test_command down to the VM) with symbolic assertion outcomes; verdict/log/exit obligations decided per path by z3; replay with the real binary')
